@@ -92,6 +92,12 @@ func makeSource(path string, tables []*srcTable) {
 	if err := h.UpdateSRS(rd28992()); err != nil {
 		fatal("srs: %v", err)
 	}
+	// a spatial reference system whose srs_id is not the organisation's code (as written by some producers: 100001 for EPSG:28992)
+	custom := rd28992()
+	custom.ID, custom.Name = 100001, "Amersfoort / RD New (custom id)"
+	if err := h.UpdateSRS(custom); err != nil {
+		fatal("srs: %v", err)
+	}
 	for _, t := range tables {
 		ddl := fmt.Sprintf(`CREATE TABLE "%s" (fid INTEGER NOT NULL PRIMARY KEY, %s);`, t.name, strings.Join(t.columnsDDL(), ", "))
 		if _, err := h.Exec(ddl); err != nil {
@@ -160,7 +166,7 @@ func randGeom(rng *rand.Rand, gtype gsgpkg.GeometryType, i int) (geom.Geometry, 
 }
 
 func randTable(rng *rand.Rand, name string, count int, gtype gsgpkg.GeometryType) *srcTable {
-	t := &srcTable{name: name, gcol: []string{"geom", "geometry", "shape"}[rng.Intn(3)], gtype: gtype, extra: 1 + rng.Intn(3), srs: []int32{28992, 4326}[rng.Intn(2)]}
+	t := &srcTable{name: name, gcol: []string{"geom", "geometry", "shape"}[rng.Intn(3)], gtype: gtype, extra: 1 + rng.Intn(3), srs: []int32{28992, 4326, 100001}[rng.Intn(3)]}
 	t.gcolPos = rng.Intn(t.extra + 1)
 	fid := int64(rng.Intn(5))
 	for i := 0; i < count; i++ {
@@ -239,7 +245,9 @@ func dumpGpkgE(path string) (res map[string]*tableDump, err error) {
 	rows.Close()
 	for _, name := range order {
 		td := out[name]
-		_ = db.QueryRow(`SELECT organization FROM gpkg_spatial_ref_sys WHERE srs_id = ?`, td.SrsID).Scan(&td.SrsOrg)
+		var orgID int
+		_ = db.QueryRow(`SELECT organization, organization_coordsys_id FROM gpkg_spatial_ref_sys WHERE srs_id = ?`, td.SrsID).Scan(&td.SrsOrg, &orgID)
+		td.SrsOrg = fmt.Sprintf("%s:%d", td.SrsOrg, orgID)
 		var minx, miny, maxx, maxy *float64
 		var dt string
 		err := db.QueryRow(`SELECT data_type, min_x, min_y, max_x, max_y FROM gpkg_contents WHERE table_name = ?`, name).Scan(&dt, &minx, &miny, &maxx, &maxy)
